@@ -156,6 +156,20 @@ theorem C07_walk_block_position (s : Store) (hB : CH) (bs : List CH) (hbs : (all
     ∧ InCont (wcontOf s (s.db.frames.length + 1) hB) (wcontOf s (s.db.frames.length + 1) hB) :=
   ⟨wcontOf_block_mem s hB bs hbs hm, InCont.here _⟩
 
+/-- … and for an item of a save frame, at any nesting depth: if `path` is a chain of save frames from the data block `hB` down to the
+    item's container (each frame among those cif_container_get_all_frames reports for the one before) no longer than the walker's depth
+    bound (number of save frames of the CIF + 1), the hypotheses hold with `B` the block's node and the container's node at the
+    remaining fuel -/
+theorem C07_walk_frame_position (s : Store) (hB : CH) (bs : List CH) (hbs : (allBlocks s).2 = .ok bs) (hm : hB ∈ bs) (path : List CH)
+    (hp : FrameChain s hB path) (hlen : path.length ≤ s.db.frames.length + 1) :
+    wcontOf s (s.db.frames.length + 1) hB ∈ wcifOf s
+    ∧ InCont (wcontOf s (s.db.frames.length + 1 - path.length) (path.getLast?.getD hB)) (wcontOf s (s.db.frames.length + 1) hB) := by
+  refine ⟨wcontOf_block_mem s hB bs hbs hm, ?_⟩
+  have := inCont_of_chain s (s.db.frames.length + 1 - path.length) path hB hp
+  have he : s.db.frames.length + 1 - path.length + path.length = s.db.frames.length + 1 := by omega
+  rw [he] at this
+  exact this
+
 /-- what the two paths deliver is the stored packet: the whole iteration, stated on the store (used by both theorems above) -/
 theorem C07_iteration_is_stored (s : Store) (hg : Good s.db) (hac : s.autocommit = true) (l : LH) (hv : l.validB s.db = true)
     (hrows : s.db.loopRows l.cid l.loopNum ≠ []) :
@@ -206,12 +220,13 @@ theorem C07_get_value_flag (s : Store) (hg : Good s.db) (h : CH) (n : Name) (hv 
 
 /-- **C07_set_value_flag** — the flag of `C07_store_read` / `C07_stored_read_identical` pinned: after cif_container_set_value on an
     existing item (any constructible value that fits), cif_container_get_value returns the value with CIF_OK when the item's loop has
-    exactly one packet and with CIF_AMBIGUOUS_ITEM when it has two or more — `n` counted in the state that is read -/
+    exactly one packet and with CIF_AMBIGUOUS_ITEM when it has two or more; the call leaves the loop's packets (row numbers) as they
+    were, so `n` is the number of packets before and after -/
 theorem C07_set_value_flag (s : Store) (hg : GoodS s) (h : CH) (n : Name) (v : V) (l : LH) (hc : C07_constructible v) (hf : C07_fits v)
     (hv : n.valid = true) (hac : s.autocommit = true) (hl : getItemLoopInternal s.db h.id n.key = .ok l)
     (hne : s.db.loopRows h.id l.loopNum ≠ []) :
-    (getValue (setValueC s h n v).1 h (some n)).2
-      = .ok (v, decide (2 ≤ ((setValueC s h n v).1.db.loopRows h.id l.loopNum).length)) := by
+    (getValue (setValueC s h n v).1 h (some n)).2 = .ok (v, decide (2 ≤ (s.db.loopRows h.id l.loopNum).length))
+    ∧ (setValueC s h n v).1.db.loopRows h.id l.loopNum = s.db.loopRows h.id l.loopNum := by
   have hw := C07_constructible_wf v hc hf
   rw [setValueC_wf s h n v hw]
   obtain ⟨ln, hln, hok, hall, hcells, hsome, _⟩ := setValue_existing_read_strong s h n v l hv hac hl
@@ -242,7 +257,11 @@ theorem C07_set_value_flag (s : Store) (hg : GoodS s) (h : CH) (n : Name) (v : V
   have hi' : i ∈ s'.db.loopItems x.cid x.loopNum := by
     rw [hxc]; unfold Db.loopItems; rw [hitems]; exact hi
   have hflag := C07_get_value_flag s' hg' h n hv x hx' hxc i hi' hik
+  have hrows' : s'.db.loopRows h.id x.loopNum = s.db.loopRows h.id x.loopNum := by
+    rw [hdb]; exact loopRows_setAllValues s.db h.id n.key v x.loopNum hln
+  refine ⟨?_, hrows'⟩
   rw [hb] at hflag ⊢
+  rw [← hrows']
   cases hrows : s'.db.loopRows h.id x.loopNum with
   | nil => rw [hrows] at hflag; simp at hflag
   | cons r rest =>
